@@ -2715,13 +2715,15 @@ def _one_info_keyword_arg(self: fst.FST, static: onestatic, idx: int | None, fie
 def _one_info_alias_asname(self: fst.FST, static: onestatic, idx: int | None, field: str) -> oneinfo:
     ast = self.a
     ln, col, end_ln, end_col = self.loc
-    loc_insdel = fstloc(ln, col + len(ast.name), end_ln, end_col)
+    lines = self.root._lines
 
     if (asname := ast.asname) is None:
+        loc_insdel = fstloc(end_ln, end_col, end_ln, end_col)  # the whole alias is the name
         loc_prim = None
 
     else:
-        lines = self.root._lines
+        name_end_col = re_identifier_alias.match(lines[ln], col, end_col if end_ln == ln else 0x7fffffffffffffff).end()  # not len(ast.name), there may be whitespace around the dots
+        loc_insdel = fstloc(ln, name_end_col, end_ln, end_col)
         ln, col = next_find(lines, ln, col, end_ln, end_col, 'as')  # skip the 'as'
         ln, col = next_find(lines, ln, col + 2, end_ln, end_col, asname)  # must be there
         loc_prim = fstloc(ln, col, ln, col + len(asname))
